@@ -59,6 +59,8 @@ def run(ctx):
     notes = {}
     for x in res:
         for n in (x.get("obs") or {}).get("notes", []) or []:
+            if n.endswith("returned Ok without storing"):
+                n = "duplicate of an already stored id skipped (Ok, nothing stored)"
             notes[n] = notes.get(n, 0) + 1
     keyf = lambda b: json.dumps(b["steps"], sort_keys=True)
     ctx.cov.update({
